@@ -192,7 +192,9 @@ class HW:
         mismatches = []
         observed = []
         sim = _DesignSimulator(self.design)
-        sim.add_clock(1e-6)
+        has_clk = self.clk is not None
+        if has_clk:
+            sim.add_clock(1e-6)
         hw = self
 
         async def tb(ctx):
@@ -214,7 +216,10 @@ class HW:
                         mismatches.append({"cycle": t, "signal": s.name, "simulator": sv, "model": mv})
                 observed.append(obs)
                 state = nstate
-                await ctx.tick()
+                if has_clk:
+                    await ctx.tick()
+                else:
+                    await ctx.delay(1e-6)
 
         sim.add_testbench(tb)
         sim.run()
